@@ -3,6 +3,7 @@ C27 (G): constants and the pow10 / halfpow10 tables of util/dnum/dnum.go (regene
 ones the model uses.
 -/
 import Gsu.Model.Dnum
+import Gsu.Model.Div128
 import Gsu.Gen.Dnum
 namespace Gsu.Props.C27G
 open Gsu.Dnum
@@ -17,5 +18,11 @@ theorem gen_constants :
 theorem gen_pow10 : Gsu.Gen.Dnum.pow10Tab = (List.range 19).map pow10 := by decide
 
 theorem gen_halfpow10 : Gsu.Gen.Dnum.halfpow10Tab = (List.range 20).map halfpow10 := by decide
+
+/-- the 32 bit halves of `e16` used by the mirrored `div128` (div128.go: `e16Hi = e16 >> 32`,
+`e16Lo = e16 & longMask`) are those of the regenerated constant -/
+theorem gen_e16_halves :
+    e16Hi = Gsu.Gen.Dnum.e16 / two32 ∧ e16Lo = Gsu.Gen.Dnum.e16 % two32 ∧ two32 = 2 ^ 32 ∧
+    two64 = 2 ^ 64 := by decide
 
 end Gsu.Props.C27G
